@@ -12,6 +12,12 @@ CLAIMS = {
  "C09": dict(level="proof", ref="7/C09",
    text="Every statement-level method of SubcircuitExpander (visit_default, visit_LoopStatement, visit_BlockStatement, process_subcircuit, process_non_subcircuit_block) is proved to return a tree related to its input by the relational spec xsub: each subcircuit block becomes a non-subcircuit block  prepare() <visited children> measure(), every other statement, nesting, block kind and loop count is unchanged and no subcircuit block remains; _choose_bounding_gate is proved to pick the caller's definition, else the native one, else a fresh one. The proof is modular induction over the statement tree (each method against the others' contracts), for all trees. Header data, macro bodies and the equivalence of the two spellings under execution are covered by the bounded stand-in (labelled bounded).",
    note="Assumed (listed in evidence.assumptions): AbstractGate.__call__ on a parameterless definition returns its GateStatement (assumed contract, not yet verified); statement trees are finite/acyclic. SubcircuitExpander.visit_Circuit and run/result pipeline positions are only exercised by the bounded stand-in."),
+ "C04": dict(level="other", ref="7/C04",
+   text="Deductive core: the structural conjuncts of macro expansion are proved for all inputs on the real functions - filter_float (integral floats become ints, nothing else changes), GateReplacer.visit_Parameter (a parameter is replaced by exactly the call's argument of that name, unbound parameters stay), MacroExpander.visit_LoopStatement (loop count unchanged), visit_default (identity), visit_GateStatement/replace_gate (non-macro gates returned unchanged; a call with the wrong number of arguments raises JaqalError; nothing but JaqalError escapes). The meaning-preservation sentence itself (call-by-substitution to any macro nesting depth, subcircuit annotations, header data) is NOT proved: it is exercised by the bounded stand-in against an independent reference semantics. Level 'other': proved lemmas + bounded exploration, separated in evidence.",
+   note="Assumed contracts (listed in evidence): GateReplacer.visit_Macro / visit_LoopStatement and MacroExpander.visit_BlockStatement are used at call sites through assumed (unverified) contracts; the splice loop and substitution walk are covered only by the bounded stand-in."),
+ "C05": dict(level="other", ref="7/C05",
+   text="Deductive core: LetFiller.resolve_constant / visit_Constant are proved to return the overriding value when the dictionary has the name, else the declared value (spec cval, the property's environment), for LetFiller and its subclass RegisterVisitor; visit_default is the identity (so macro parameters that shadow a constant are left alone); visit_LoopStatement and visit_BlockStatement are proved to emit the same block kind, the subcircuit annotation with its substituted count, the substituted loop count and one entry per child. The end-to-end sentence (no constant left anywhere, meaning equal to the original in the chosen environment, through the circuit rebuild) is exercised by the bounded stand-in with override dictionaries.",
+   note="Assumed: LetFiller.visit_GateStatement (assumed contract), circuitbuilder.build (the rebuild) is outside the proved part; statement trees acyclic."),
 }
 NA_REASON = "check not built yet in this round (work in progress; DESIGN.md section 7 gives the planned contracts)"
 
